@@ -4,28 +4,8 @@
     [undercut e en ws p] lists (executably) the candidates of [e] that an earlier level undercuts, on the two tiers
     of [Spec.Meaning]: among the items expected as whole words ([state_cands], the levels of the [||] branches) and,
     inside a within-word expression, among its continuations ([wcands], the levels of the pieces). *)
-From CG Require Import Base.Prelude Model.Ast Model.Check Spec.Rx Spec.Meaning
+From CG Require Import Base.Prelude Model.Ast Model.Check Spec.Rx Spec.Meaning Spec.Undercut
      Proofs.RxFacts Proofs.MeaningFacts Proofs.MeaningLevels.
-
-Definition proper_wcands (en : env) (x : rx wleaf) (p : string) : list (N * string) :=
-  filter (fun c => negb (String.eqb (snd c) p)) (wcands en x p).
-
-Definition has_lower (l : N) (cs : list (N * string)) : bool := existsb (fun c => N.ltb (fst c) l) cs.
-
-(** the candidates of the expected item [a] that are NOT offered because a strictly earlier level has a
-    candidate extending the typed word *)
-Definition undercut_item (en : env) (s : state) (p : string) (a : leaf) : list string :=
-  let top := state_cands en s p in
-  match a with
-  | LSub x l =>
-    let pw := proper_wcands en x p in
-    map snd (filter (fun c => has_lower (fst c) pw || has_lower l top) pw)
-  | _ => map snd (filter (fun c => has_lower (fst c) top) (item_cands en a p))
-  end.
-
-Definition undercut (e : expr) (en : env) (ws : list string) (p : string) : list string :=
-  let s := run en (start e) ws in
-  map (strip (e_wordbreaks en) p) (flat_map (undercut_item en s p) (map fst (moves s))).
 
 (** *** lowest *)
 Lemma has_lower_false l cs : has_lower l cs = false -> forall l' c', In (l', c') cs -> l <= l'.
